@@ -61,6 +61,12 @@ def aggregatePoints {G : Type} (add : G → G → G) : List G → Option G
   | [] => none
   | p :: ps => some (ps.foldl add p)
 
+/-- Decision core of `VerifySig` (`sig.go`): `PairIsEuqal(Pair(σ, g₂), Pair(H(m), pk))`. The
+    nil / on-curve guards in front of it are C14's subject. -/
+def verifyCore {G1 G2 GT : Type} (pair : G1 → G2 → GT) (eq : GT → GT → Bool)
+    (g2 pk : G2) (hm sig : G1) : Bool :=
+  eq (pair sig g2) (pair hm pk)
+
 /-! ### Lagrange coefficients -/
 
 /-- The inner `j` loop of `recoverSignature` for fixed `i`: running `(num, den)`. `j` is the
